@@ -237,7 +237,7 @@ def strategy(tier):
 
 
 def budget(tier):
-    return 1500 if tier == "quick" else 150000
+    return 1500 if tier == "quick" else 100000
 
 
 def classify(case):
